@@ -134,7 +134,7 @@ Proof.
       rewrite phase_clear_mk. rewrite (eqb_false r (r + up_voteRounds P)) by lia. cbn [andb].
       rewrite phase_switch_mk. rewrite (eqb_false r (r + up_voteRounds P + d)) by lia.
       intros H. inversion H; subst s'. right. exists P.
-      split; [exact HP|]. split; [exact Hpe|]. split; [exact Hmn|]. split; [exact Hmx|].
+      split; [reflexivity|]. split; [exact Hpe|]. split; [exact Hmn|]. split; [exact Hmx|].
       left. split; [reflexivity|]. split; [lia|]. split; [lia|]. intros; lia.
     + rewrite phase_clear_mk.
       destruct (N.eqb_spec r (r + up_voteRounds P)) as [Hvb|Hvb]; cbn [andb].
@@ -147,13 +147,228 @@ Proof.
         -- rewrite phase_switch_mk.
            destruct (N.eqb_spec r (r + up_voteRounds P + d)) as [Hso|Hso].
            ++ intros H. inversion H; subst s'. right. exists P.
-              split; [exact HP|]. split; [exact Hpe|]. split; [exact Hmn|]. split; [exact Hmx|].
+              split; [reflexivity|]. split; [exact Hpe|]. split; [exact Hmn|]. split; [exact Hmx|].
               right. split; [exact HVR|]. split; [lia|]. split; [lia|]. auto.
            ++ intros H. inversion H; subst s'. right. exists P.
-              split; [exact HP|]. split; [exact Hpe|]. split; [exact Hmn|]. split; [exact Hmx|].
+              split; [reflexivity|]. split; [exact Hpe|]. split; [exact Hmn|]. split; [exact Hmx|].
               left. split; [reflexivity|]. split; [lia|]. split; [congruence|]. intros; lia.
       * rewrite phase_switch_mk. rewrite (eqb_false r (r + up_voteRounds P + d)) by lia.
         intros H. inversion H; subst s'. right. exists P.
-        split; [exact HP|]. split; [exact Hpe|]. split; [exact Hmn|]. split; [exact Hmx|].
+        split; [reflexivity|]. split; [exact Hpe|]. split; [exact Hmn|]. split; [exact Hmx|].
         left. split; [reflexivity|]. split; [lia|]. split; [congruence|]. intros; lia.
+Qed.
+
+(* ---------- what an accepted step does while a proposal is pending ---------- *)
+Lemma step_from_pending cons s r v s' P :
+  PendingOK cons s r P -> 1 <= r -> r + 1 < W ->
+  step cons s r v = UOk s' ->
+  v_propose v = [] /\ (v_approve v = true -> r < us_voteBefore s) /\
+  let a := us_approvals s + (if v_approve v then 1 else 0) in
+  ((r = us_voteBefore s /\ a < up_threshold P /\ s' = mkUS (us_current s) [] 0 0 0) \/
+   (r = us_switchOn s /\ (r = us_voteBefore s -> up_threshold P <= a) /\
+    s' = mkUS (us_next s) [] 0 0 0) \/
+   (r < us_switchOn s /\ (r = us_voteBefore s -> up_threshold P <= a) /\
+    s' = mkUS (us_current s) (us_next s) a (us_voteBefore s) (us_switchOn s))).
+Proof.
+  destruct s as [c n a vb so]. unfold PendingOK. cbn [us_current us_next us_approvals us_voteBefore us_switchOn].
+  intros (Hn & HP & Hvs & Hrs & HsW & Har & Hth) Hr HrW.
+  unfold step. cbn [us_current]. rewrite HP. rewrite phase_propose_mk.
+  assert (Hne : ver_empty n = false) by (apply ver_empty_false; exact Hn).
+  destruct (ver_empty (v_propose v)) eqn:Hpe; cbn [negb].
+  2:{ rewrite Hne. cbn [negb]. discriminate. }
+  apply ver_empty_nil in Hpe.
+  destruct (v_delay v =? 0); cbn [negb]; [|discriminate].
+  rewrite phase_approve_mk, Hne.
+  assert (Hfin : forall a',
+     a <= a' -> (vb < r -> a' = a) ->
+     UOk (phase_switch (phase_clear P (mkUS c n a' vb so) r) r) = UOk s' ->
+     (r = vb /\ a' < up_threshold P /\ s' = mkUS c [] 0 0 0) \/
+     (r = so /\ (r = vb -> up_threshold P <= a') /\ s' = mkUS n [] 0 0 0) \/
+     (r < so /\ (r = vb -> up_threshold P <= a') /\ s' = mkUS c n a' vb so)).
+  { intros a' Ha' Hsame. rewrite phase_clear_mk.
+    destruct (N.eqb_spec r vb) as [Hrv|Hrv]; cbn [andb].
+    - destruct (N.ltb_spec a' (up_threshold P)) as [Hlt|Hge].
+      + rewrite phase_switch_mk. rewrite (eqb_false r 0) by lia.
+        intros H. inversion H; subst s'. left. auto.
+      + rewrite phase_switch_mk. destruct (N.eqb_spec r so) as [Hso|Hso].
+        * intros H. inversion H; subst s'. right. left. auto.
+        * intros H. inversion H; subst s'. right. right. split; [lia|]. auto.
+    - rewrite phase_switch_mk. destruct (N.eqb_spec r so) as [Hso|Hso].
+      + intros H. inversion H; subst s'. right. left. split; [exact Hso|]. split; [intros; contradiction|reflexivity].
+      + intros H. inversion H; subst s'. right. right. split; [lia|]. split; [intros; contradiction|reflexivity]. }
+  destruct (v_approve v) eqn:Hap.
+  - destruct (N.leb_spec vb r) as [Hl|Hl]; [discriminate|].
+    rewrite (wadd_small a 1) by lia.
+    intros H. split; [exact Hpe|]. split; [intros _; exact Hl|].
+    cbv zeta. apply Hfin; [lia|lia|exact H].
+  - intros H. split; [exact Hpe|]. split; [discriminate|].
+    cbv zeta. rewrite N.add_0_r. apply Hfin; [lia|reflexivity|exact H].
+Qed.
+
+(* the invariant is preserved by the "continue" and the "proposal accepted" outcomes *)
+Lemma pending_continue cons s r P a :
+  PendingOK cons s r P -> r < us_switchOn s ->
+  us_approvals s <= a -> a <= us_approvals s + 1 -> (us_voteBefore s < r -> a = us_approvals s) ->
+  (r = us_voteBefore s -> up_threshold P <= a) ->
+  PendingOK cons (mkUS (us_current s) (us_next s) a (us_voteBefore s) (us_switchOn s)) (r + 1) P.
+Proof.
+  unfold PendingOK. cbn [us_current us_next us_approvals us_voteBefore us_switchOn].
+  intros (Hn & HP & Hvs & Hrs & HsW & Har & Hth) Hlt Ha1 Ha2 Hsame Hdead.
+  repeat split; try assumption; try lia.
+Qed.
+
+Lemma pending_after_proposal cons B c P r v :
+  wf_cons cons B -> cons c = Some P -> r + 1 + B < W ->
+  v_propose v <> [] -> v_delay v <= up_maxwait P ->
+  r < r + up_voteRounds P + eff_delay P (v_delay v) ->
+  (up_voteRounds P = 0 -> up_threshold P <= (if v_approve v then 1 else 0)) ->
+  PendingOK cons (mkUS c (v_propose v) (if v_approve v then 1 else 0) (r + up_voteRounds P)
+                       (r + up_voteRounds P + eff_delay P (v_delay v))) (r + 1) P.
+Proof.
+  intros Hwf HP HB Hpe Hmx Hlt Hth. destruct (Hwf _ _ HP) as [Hb1 Hb2].
+  unfold PendingOK. cbn [us_current us_next us_approvals us_voteBefore us_switchOn].
+  assert (Hd : eff_delay P (v_delay v) <= up_maxwait P \/ eff_delay P (v_delay v) = up_defwait P).
+  { unfold eff_delay. destruct (v_delay v =? 0); [right; reflexivity|left; exact Hmx]. }
+  split; [exact Hpe|]. split; [exact HP|]. split; [lia|]. split; [lia|].
+  split; [destruct Hd; lia|]. split; [destruct (v_approve v); lia|].
+  intros Hv. apply Hth. lia.
+Qed.
+
+(* ---------- every switch in every history is justified ---------- *)
+Lemma sj_shift cons r v vs s0 bef' k sk sk' :
+  switch_justified cons (r + 1) vs bef' k sk sk' ->
+  switch_justified cons r (v :: vs) (s0 :: bef') (S k) sk sk'.
+Proof.
+  intros (j & vp & P & Hjk & Hv & HP & Hprop & Hne & Hmn & Hmx & Hk & Hth & Hbj & Hbetween).
+  exists (S j), vp, P.
+  split; [lia|]. split; [exact Hv|]. split; [exact HP|]. split; [exact Hprop|].
+  split; [exact Hne|]. split; [exact Hmn|]. split; [exact Hmx|].
+  split; [lia|]. split; [exact Hth|]. split; [exact Hbj|].
+  intros i si Hi Hnth. destruct i as [|i]; [lia|]. cbn [nth_error] in Hnth.
+  destruct (Hbetween i si ltac:(lia) Hnth) as (A & B & C & D).
+  split; [exact A|]. split; [exact B|]. split; lia.
+Qed.
+
+(* the switch at block k is the switch of the proposal that was already pending in [s] *)
+Definition concl_pending (r : N) (vs : list vote) (s : ustate) (bef : list ustate)
+           (k : nat) (sk' : ustate) (P : uparams) : Prop :=
+  r + N.of_nat k = us_switchOn s /\ us_current sk' = us_next s /\
+  up_threshold P <=
+    us_approvals s + count_approve (firstn (N.to_nat (us_voteBefore s - r)) vs) /\
+  (forall i si, (i <= k)%nat -> nth_error bef i = Some si ->
+     us_current si = us_current s /\ us_next si = us_next s /\
+     us_voteBefore si = us_voteBefore s /\ us_switchOn si = us_switchOn s).
+
+Lemma quiescent_mk c : quiescent (mkUS c [] 0 0 0).
+Proof. unfold quiescent. cbn. auto. Qed.
+
+Lemma switch_classified cons B : wf_cons cons B ->
+  forall vs s r sts,
+  1 <= r -> r + N.of_nat (length vs) + B < W ->
+  trace cons s r vs = Some sts ->
+  forall k sk sk',
+    nth_error (s :: sts) k = Some sk -> nth_error sts k = Some sk' ->
+    us_current sk' <> us_current sk ->
+    (quiescent s -> switch_justified cons r vs (s :: sts) k sk sk') /\
+    (forall P, PendingOK cons s r P ->
+       concl_pending r vs s (s :: sts) k sk' P \/ switch_justified cons r vs (s :: sts) k sk sk').
+Proof.
+  intros Hwf. induction vs as [|v vs IH]; intros s r sts Hr HB Htr k sk sk' Hk Hk' Hchg.
+  { cbn in Htr. inversion Htr; subst sts. destruct k; discriminate. }
+  cbn [trace] in Htr. destruct (step cons s r v) as [s1|] eqn:Hstep; [|discriminate].
+  destruct (trace cons s1 (r + 1) vs) as [l|] eqn:Hl; [|discriminate].
+  inversion Htr; subst sts. clear Htr.
+  cbn [length] in HB.
+  assert (HB' : r + 1 + N.of_nat (length vs) + B < W) by lia.
+  destruct k as [|k].
+  - (* the first block of this suffix switches *)
+    cbn [nth_error] in Hk, Hk'. inversion Hk; subst sk. inversion Hk'; subst sk'. clear Hk Hk'.
+    split.
+    + intros Hq.
+      destruct (step_from_quiescent cons B s r v s1 Hwf Hq Hr ltac:(lia) Hstep)
+        as [(_ & Hsame & _)|(P & HP & Hpe & Hmn & Hmx & Hcase)]; [congruence|].
+      cbv zeta in Hcase. destruct Hcase as [(Hs1 & _)|(HVR & Hd & Hth & Hap & Hs1)].
+      * subst s1. cbn in Hchg. congruence.
+      * subst s1. exists 0%nat, v, P.
+        split; [lia|]. split; [reflexivity|]. split; [exact HP|]. split; [reflexivity|].
+        split; [exact Hpe|]. split; [exact Hmn|]. split; [exact Hmx|].
+        split; [cbn; lia|]. split; [lia|]. split.
+        -- intros sj Hsj. cbn in Hsj. inversion Hsj; subst sj. destruct Hq as (Hq1 & _). auto.
+        -- intros i si Hi. lia.
+    + intros P HPok.
+      destruct (step_from_pending cons s r v s1 P HPok Hr ltac:(lia) Hstep) as (Hpe & Hap & Hcase).
+      cbv zeta in Hcase. destruct HPok as (Hn & HP & Hvs & Hrs & HsW & Har & Hth).
+      destruct Hcase as [(_ & _ & Hs1)|[(Hso & Hdead & Hs1)|(_ & _ & Hs1)]];
+        subst s1; cbn [us_current] in Hchg; try congruence.
+      left. unfold concl_pending. cbn [us_current].
+      split; [cbn; lia|]. split; [reflexivity|]. split.
+      * destruct (N.eq_dec r (us_voteBefore s)) as [E|E].
+        -- specialize (Hdead E). destruct (v_approve v) eqn:Hv; [specialize (Hap eq_refl); lia|].
+           rewrite <- E, N.sub_diag. cbn. lia.
+        -- assert (Hlt : us_voteBefore s < r) by lia. specialize (Hth Hlt).
+           replace (us_voteBefore s - r) with 0 by lia. cbn. lia.
+      * intros i si Hi Hnth. assert (i = 0%nat) by lia. subst i. cbn in Hnth.
+        inversion Hnth; subst si. auto.
+  - (* a later block switches: use the induction hypothesis on the rest *)
+    cbn [nth_error] in Hk, Hk'.
+    assert (Hr' : 1 <= r + 1) by lia.
+    destruct (IH s1 (r + 1) l Hr' HB' Hl k sk sk' Hk Hk' Hchg) as [IHq IHp].
+    split.
+    + intros Hq.
+      destruct (step_from_quiescent cons B s r v s1 Hwf Hq Hr ltac:(lia) Hstep)
+        as [(Hq1 & _ & _)|(P & HP & Hpe & Hmn & Hmx & Hcase)].
+      * apply sj_shift. apply IHq. exact Hq1.
+      * cbv zeta in Hcase. destruct Hcase as [(Hs1 & Hlt & Hap & Hth0)|(_ & _ & _ & _ & Hs1)].
+        -- assert (HPok : PendingOK cons s1 (r + 1) P).
+           { subst s1. apply (pending_after_proposal cons B); auto. lia. }
+           destruct (IHp P HPok) as [Hcp|Hsj]; [|apply sj_shift; exact Hsj].
+           (* the proposal made by block 0 of this suffix is the one that switches *)
+           destruct Hcp as (Hso & Hcur & Hthr & Hbetween).
+           subst s1. cbn [us_current us_next us_approvals us_voteBefore us_switchOn] in *.
+           exists 0%nat, v, P.
+           split; [lia|]. split; [reflexivity|].
+           assert (Hcsk : us_current sk = us_current s).
+           { destruct (Hbetween k sk ltac:(lia) Hk) as (A & _). exact A. }
+           split; [rewrite Hcsk; exact HP|]. split; [symmetry; exact Hcur|].
+           split; [exact Hpe|]. split; [exact Hmn|]. split; [exact Hmx|].
+           split; [lia|]. split.
+           ++ unfold window. cbn [skipn].
+              destruct (N.eq_dec (up_voteRounds P) 0) as [E|E].
+              ** rewrite E in *. cbn. specialize (Hth0 eq_refl).
+                 replace (r + 0 - (r + 1)) with 0 in Hthr by lia. cbn in Hthr.
+                 destruct (v_approve v); [specialize (Hap eq_refl); lia|lia].
+              ** replace (N.to_nat (up_voteRounds P)) with (S (N.to_nat (up_voteRounds P - 1))) by lia.
+                 cbn [firstn count_approve].
+                 replace (r + up_voteRounds P - (r + 1)) with (up_voteRounds P - 1) in Hthr by lia.
+                 exact Hthr.
+           ++ split.
+              ** intros sj Hsj. cbn in Hsj. inversion Hsj; subst sj. destruct Hq as (Hq1 & _). auto.
+              ** intros i si Hi Hnth. destruct i as [|i]; [lia|]. cbn [nth_error] in Hnth.
+                 destruct (Hbetween i si ltac:(lia) Hnth) as (A & B' & C & D).
+                 split; [congruence|]. split; [exact B'|]. split; [rewrite C; cbn; lia|]. rewrite D. lia.
+        -- apply sj_shift. apply IHq. subst s1. apply quiescent_mk.
+    + intros P HPok.
+      destruct (step_from_pending cons s r v s1 P HPok Hr ltac:(lia) Hstep) as (Hpe & Hap & Hcase).
+      cbv zeta in Hcase.
+      destruct Hcase as [(_ & _ & Hs1)|[(_ & _ & Hs1)|(Hlt & Hdead & Hs1)]].
+      * right. apply sj_shift. apply IHq. subst s1. apply quiescent_mk.
+      * right. apply sj_shift. apply IHq. subst s1. apply quiescent_mk.
+      * assert (HPok1 : PendingOK cons s1 (r + 1) P).
+        { subst s1. apply pending_continue; auto.
+          - lia.
+          - destruct (v_approve v); lia.
+          - intros Hv. destruct (v_approve v); [specialize (Hap eq_refl); lia|lia]. }
+        destruct (IHp P HPok1) as [Hcp|Hsj]; [|right; apply sj_shift; exact Hsj].
+        left. destruct Hcp as (Hso & Hcur & Hthr & Hbetween).
+        subst s1. cbn [us_current us_next us_approvals us_voteBefore us_switchOn] in *.
+        unfold concl_pending. split; [lia|]. split; [exact Hcur|]. split.
+        -- destruct (N.ltb_spec r (us_voteBefore s)) as [Hin|Hout].
+           ++ replace (N.to_nat (us_voteBefore s - r)) with (S (N.to_nat (us_voteBefore s - (r + 1)))) by lia.
+              cbn [firstn count_approve]. lia.
+           ++ replace (us_voteBefore s - r) with 0 by lia.
+              replace (us_voteBefore s - (r + 1)) with 0 in Hthr by lia. cbn in *.
+              destruct (v_approve v); [specialize (Hap eq_refl); lia|lia].
+        -- intros i si Hi Hnth. destruct i as [|i].
+           ++ cbn in Hnth. inversion Hnth; subst si. auto.
+           ++ cbn [nth_error] in Hnth. apply (Hbetween i si); [lia|exact Hnth].
 Qed.
